@@ -19,15 +19,29 @@
 (*   of the same ABCI call (fee allocation, reward pay-outs triggered by   *)
 (*   the slash, the coinomics mint) are part of the event record and are   *)
 (*   subtracted.                                                           *)
+(*   The statement is unconditional: P never reads the configuration of    *)
+(*   the chain (field env of the state: bank send-enabled switches,        *)
+(*   distribution community tax, gov burn switches and deposit             *)
+(*   denominations, erc20 switches, slash fractions).  Whatever legal      *)
+(*   parameter change precedes a slash or a deposit burn, the same         *)
+(*   equations must hold; parameter changes are events of the histories    *)
+(*   (SetParam) and the trace spec counts the checked events per           *)
+(*   configuration class (EnvClasses) so that a run that never left the    *)
+(*   default configuration is recognised as vacuous.                       *)
 (*                                                                         *)
 (* As-built machine M: staking Slash (validator, unbonding delegations,    *)
 (*   redelegations, with the slash fractions of the parameters), the gov   *)
 (*   end-of-period handling with its three burn switches, the bank         *)
 (*   wrapper MBurn that redirects the burns of gov / bonded pool /         *)
-(*   not-bonded pool, and burns of other modules.  Realistic mis-wirings   *)
-(*   of the wrapper are named members of the CONSTANT Defects (none is     *)
-(*   known in the code; the defect configurations are the non-vacuity      *)
-(*   witnesses of P).                                                      *)
+(*   not-bonded pool, and burns of other modules.  The gov switches that   *)
+(*   decide whether a deposit is burned are read from env at the time the  *)
+(*   proposal ends; the wrapper itself reads nothing of env.  Realistic    *)
+(*   mis-wirings of the wrapper are named members of the CONSTANT Defects  *)
+(*   (none is known in the code; the defect configurations are the         *)
+(*   non-vacuity witnesses of P); the gate_* defects make the redirect     *)
+(*   depend on a parameter (the coins are really burned while sending is   *)
+(*   disabled / while the community tax is zero / for denominations that   *)
+(*   are not deposit denominations).                                       *)
 (*                                                                         *)
 (* A state is a record (amounts are decimal strings, module BigNum)        *)
 (*   supply, distrBal, feeCollector, govBal : [denom -> amount]            *)
@@ -39,6 +53,11 @@
 (*   redE : sequence of redelegation entries                               *)
 (*            [k, src, dst, del, h, init, sharesDst, mature]               *)
 (*   dels : [delegator|validator -> shares x 10^18]                        *)
+(*   env  : the configuration                                              *)
+(*            [sendDefault : BOOLEAN, send : [denom -> "on"|"off"|"unset"],*)
+(*             tax : community tax x 10^18, burnVeto, burnPrevote,         *)
+(*             burnQuorum : BOOLEAN, minDep : [denom -> amount],           *)
+(*             erc20 : BOOLEAN, ...]                                       *)
 (* P reads supply, distrBal, feeCollector, govBal, community, outstanding, *)
 (* bonded, notBonded, vals[..].tokens and ubd only.                        *)
 (***************************************************************************)
@@ -53,12 +72,16 @@ CONSTANTS
     PowerReduction,
     FracDouble,    \* slash fraction for a double sign, <<num, den>>
     FracDowntime,  \* slash fraction for downtime, <<num, den>>
-    BurnVeto, BurnPrevote, BurnQuorum,   \* the gov parameters BurnVoteVeto, BurnProposalDepositPrevote, BurnVoteQuorum
+    BurnVeto, BurnPrevote, BurnQuorum,   \* initial values of the gov parameters BurnVoteVeto, BurnProposalDepositPrevote, BurnVoteQuorum
+    ParamKeys,     \* the parameters that a behaviour may change, subset of AllParamKeys
+    MaxParamChanges, \* bound on the number of parameter changes of a behaviour
     Seeded,        \* BOOLEAN: the model starts with unbonding and redelegating stake at both validators
     Defects        \* subset of DefectNames
 
 DefectNames == {"staking_plain_bank", "gov_plain_bank", "no_feepool_update", "bonded_only",
-                "redirect_all", "bond_denom_only"}
+                "redirect_all", "bond_denom_only",
+                "gate_send_enabled", "gate_community_tax", "gate_deposit_denoms"}
+AllParamKeys == {"sendDefault", "send", "tax", "burnVeto", "burnPrevote", "burnQuorum", "minDep", "erc20"}
 
 E18 == BigPow10(18)
 
@@ -74,6 +97,16 @@ StakeRec(s) == BigAdd(SumOver(DOMAIN s.vals, LAMBDA v : s.vals[v].tokens),
 Pools(s)  == BigAdd(s.bonded, s.notBonded)
 CO(s, d)  == BigAdd(s.community[d], s.outstanding[d])          \* x 10^18
 Scale(a)  == BigMul(a, E18)
+
+\* the configuration: is sending of denomination d enabled (bank: explicit entry, else the default)
+SendOn(env, d) == IF env.send[d] = "unset" THEN env.sendDefault ELSE env.send[d] = "on"
+\* classes of configurations a redirected burn of coins x(_) is checked under (coverage only, never a verdict)
+EnvClasses(env, x(_), ds) ==
+    (IF \E d \in ds : ~BigIsZero(x(d)) /\ ~SendOn(env, d) THEN {"sendOff"} ELSE {})
+    \cup (IF BigIsZero(env.tax) THEN {"tax0"} ELSE {})
+    \cup (IF BigEq(env.tax, E18) THEN {"tax1"} ELSE {})
+    \cup (IF ~env.erc20 THEN {"erc20Off"} ELSE {})
+    \cup (IF \E d \in ds : ~BigIsZero(x(d)) /\ BigIsZero(env.minDep[d]) THEN {"nonDepositDenom"} ELSE {})
 
 ---------------------------------------------------------------------------
 (* P: state invariants *)
@@ -167,7 +200,12 @@ StepClass(e) ==
 
 ---------------------------------------------------------------------------
 (* M: the bank wrapper.  pm = parameters record                            *)
-(*   [fd, ft : <<num, den>>, pr, bond, burnVeto, burnPrevote, burnQuorum]  *)
+(*   [fd, ft : <<num, den>>, pr, bond]                                     *)
+
+\* the gate_* defects: a wrapper that makes the redirect depend on the configuration
+Gated(s, c) ==
+    \/ "gate_send_enabled" \in Defects /\ \E d \in D(s) : ~BigIsZero(c[d]) /\ ~SendOn(s.env, d)
+    \/ "gate_community_tax" \in Defects /\ BigIsZero(s.env.tax)
 
 Redirects(m) ==
     IF "redirect_all" \in Defects THEN TRUE
@@ -183,11 +221,13 @@ Debit(s, m, c) ==
       [] OTHER           -> [s EXCEPT !.modBal[m] = [d \in DOMAIN @ |-> BigSub(@[d], c[d])]]
 
 \* x/bank/keeper/keeper.go BurnCoins: gov and the two staking pools send to the distribution
-\* module and add to FeePool.CommunityPool; everybody else burns
+\* module and add to FeePool.CommunityPool; everybody else burns.  Nothing of s.env is read
+\* (keeper-level module-to-module transfers ignore the send-enabled switches).
 MBurn(s, m, c) ==
     LET s1 == Debit(s, m, c)
-        red(d) == IF ~Redirects(m) THEN "0"
-                  ELSE IF "bond_denom_only" \in Defects /\ d # BondDenom THEN "0" ELSE c[d] IN
+        red(d) == IF ~Redirects(m) \/ Gated(s, c) THEN "0"
+                  ELSE IF "bond_denom_only" \in Defects /\ d # BondDenom THEN "0"
+                  ELSE IF "gate_deposit_denoms" \in Defects /\ BigIsZero(s.env.minDep[d]) THEN "0" ELSE c[d] IN
     [s1 EXCEPT !.distrBal  = [d \in DOMAIN @ |-> BigAdd(@[d], red(d))],
                !.community = [d \in DOMAIN @ |-> IF "no_feepool_update" \in Defects THEN @[d]
                                                  ELSE BigAdd(@[d], Scale(red(d)))],
@@ -269,7 +309,8 @@ MSlashOne(pm, s, kind, v, power, infr) ==
 ---------------------------------------------------------------------------
 (* M: the exhaustive machine.  Two validators, one delegator with bonded, unbonding and     *)
 (* redelegating stake at both, two proposals with deposits in one and two denominations,   *)
-(* three other modules that burn.                                                           *)
+(* three other modules that burn, and up to MaxParamChanges changes of the parameters in    *)
+(* ParamKeys (SetParam) anywhere in the behaviour.                                          *)
 
 VARIABLES st, hist, ops
 vars == <<st, hist, ops>>
@@ -280,11 +321,16 @@ Mods == {"erc20", "liquidvesting", "evm"}
 PropIds == {"p1", "p2"}
 Del == "a1"
 
-MP == [fd |-> FracDouble, ft |-> FracDowntime, pr |-> PowerReduction, bond |-> BondDenom,
-       burnVeto |-> BurnVeto, burnPrevote |-> BurnPrevote, burnQuorum |-> BurnQuorum]
+MP == [fd |-> FracDouble, ft |-> FracDowntime, pr |-> PowerReduction, bond |-> BondDenom]
 
 Zero == [d \in Denoms |-> "0"]
 Coins(d, a) == [x \in Denoms |-> IF x = d THEN a ELSE "0"]
+
+\* the default configuration: sending enabled, community tax 2 %, deposits in the bond denomination
+TaxDefault == BigMul("2", BigPow10(16))
+Env0 == [sendDefault |-> TRUE, send |-> [d \in Denoms |-> "unset"], tax |-> TaxDefault,
+         burnVeto |-> BurnVeto, burnPrevote |-> BurnPrevote, burnQuorum |-> BurnQuorum,
+         minDep |-> Coins(BondDenom, Amt), erc20 |-> TRUE]
 
 \* delegator a1 starts with 4 Amt bonded at each validator.  In the seeded variant it has in
 \* addition already unbonded Amt from each validator and redelegated Amt to the other one (at
@@ -313,6 +359,8 @@ Init ==
               ubdE         |-> UbdE0,
               redE         |-> RedE0,
               dels         |-> [k \in {Del \o "|v1", Del \o "|v2"} |-> Scale(BigMul(Amt, IF Seeded THEN "3" ELSE "4"))],
+              env          |-> Env0,
+              nparam       |-> 0,
               \* model-only fields
               modBal       |-> [m \in Mods |-> [d \in Denoms |-> BigMul(Amt, "3")]],
               gprops       |-> [p \in PropIds |-> [status |-> "none", dep |-> Zero]],
@@ -402,8 +450,7 @@ Unjail(v) ==
                       !.notBonded = BigSub(@, val.tokens), !.bonded = BigAdd(@, val.tokens)])
 
 \* governance
-MinDeposit == Coins(BondDenom, Amt)
-Reaches(dep) == \A d \in Denoms : BigLE(MinDeposit[d], dep[d])
+Reaches(dep) == \A d \in Denoms : BigLE(st.env.minDep[d], dep[d])
 
 Deposit(p, c) ==
     LET pr  == st.gprops[p]
@@ -418,9 +465,9 @@ Deposit(p, c) ==
 \* gov EndBlocker for one proposal: deposits are burned or refunded
 EndProposal(p, outcome, opname) ==
     LET pr   == st.gprops[p]
-        burn == CASE outcome = "veto"     -> BurnVeto
-                  [] outcome = "expired"  -> BurnPrevote
-                  [] outcome = "noquorum" -> BurnQuorum
+        burn == CASE outcome = "veto"     -> st.env.burnVeto
+                  [] outcome = "expired"  -> st.env.burnPrevote
+                  [] outcome = "noquorum" -> st.env.burnQuorum
                   [] OTHER                -> FALSE
         s0   == ValsetUpdate(st)
         s1   == IF burn THEN MBurn(s0, "gov", pr.dep) ELSE Debit(s0, "gov", pr.dep) IN
@@ -440,6 +487,32 @@ EndBlockOnly ==
     /\ Log([ev |-> "end", args |-> [h |-> 0], ok |-> TRUE, rep |-> [ended |-> <<>>, withdrawn |-> Zero]],
            [op |-> "blocks", n |-> 1], ValsetUpdate(st))
 
+\* a legal change of the configuration (on the chain: a passed proposal carrying the authority
+\* message of the module).  c = [key, denom, val] with val a string.
+Bool(v) == v = "true"
+BoolStr(b) == IF b THEN "true" ELSE "false"
+ParamChoices ==
+    {[key |-> "sendDefault", denom |-> "-", val |-> BoolStr(b)] : b \in BOOLEAN}
+    \cup {[key |-> "send", denom |-> d, val |-> v] : d \in Denoms, v \in {"on", "off", "unset"}}
+    \cup {[key |-> "tax", denom |-> "-", val |-> v] : v \in {"0", TaxDefault, E18}}
+    \cup {[key |-> k, denom |-> "-", val |-> BoolStr(b)] : k \in {"burnVeto", "burnPrevote", "burnQuorum", "erc20"}, b \in BOOLEAN}
+    \cup {[key |-> "minDep", denom |-> d, val |-> Amt] : d \in Denoms \cup {"*"}}
+ApplyParam(env, c) ==
+    CASE c.key = "sendDefault" -> [env EXCEPT !.sendDefault = Bool(c.val)]
+      [] c.key = "send"        -> [env EXCEPT !.send[c.denom] = c.val]
+      [] c.key = "tax"         -> [env EXCEPT !.tax = c.val]
+      [] c.key = "burnVeto"    -> [env EXCEPT !.burnVeto = Bool(c.val)]
+      [] c.key = "burnPrevote" -> [env EXCEPT !.burnPrevote = Bool(c.val)]
+      [] c.key = "burnQuorum"  -> [env EXCEPT !.burnQuorum = Bool(c.val)]
+      [] c.key = "erc20"       -> [env EXCEPT !.erc20 = Bool(c.val)]
+      [] c.key = "minDep"      -> [env EXCEPT !.minDep = [d \in DOMAIN @ |-> IF c.denom \in {"*", d} THEN c.val ELSE "0"]]
+SetParam(c) ==
+    /\ c.key \in ParamKeys /\ st.nparam < MaxParamChanges
+    /\ ApplyParam(st.env, c) # st.env
+    /\ Log([ev |-> "tx", args |-> [k |-> "setparam", module |-> "-", burn |-> Zero, mint |-> Zero], ok |-> TRUE, rep |-> ZeroRep],
+           [op |-> "setparam", key |-> c.key, denom |-> c.denom, val |-> c.val],
+           [st EXCEPT !.env = ApplyParam(@, c), !.nparam = @ + 1])
+
 \* a burn by a module that is not staking or gov
 OtherModuleBurn(m, d) ==
     /\ BigLE(Amt, st.modBal[m][d])
@@ -456,6 +529,7 @@ Next ==
        \/ \E p \in PropIds, d \in Denoms : Deposit(p, Coins(d, Amt))
        \/ \E p \in PropIds : VetoProposal(p) \/ FailDepositPeriod(p) \/ NoQuorum(p) \/ RejectProposal(p)
        \/ \E m \in Mods, d \in Denoms : OtherModuleBurn(m, d)
+       \/ \E c \in ParamChoices : SetParam(c)
 
 Spec == Init /\ [][Next]_vars
 
@@ -491,6 +565,8 @@ SimNext ==
           \/ VetoProposal(p) \/ FailDepositPeriod(p)
           \/ (Pick(1..2, hist) = 1 /\ (NoQuorum(p) \/ RejectProposal(p)))
        \/ OtherModuleBurn(Pick({"liquidvesting", "evm"}, hist), BondDenom)
+       \/ SetParam(Pick({c \in ParamChoices : c.key \in ParamKeys}, hist))
+       \/ SetParam(Pick({c \in ParamChoices : c.key \in ParamKeys \cap {"sendDefault", "send", "tax"}}, hist))
 SimSpec == Init /\ [][SimNext \/ Emit]_vars
 
 \* model values for the configurations (cfg files cannot write tuples)
